@@ -581,7 +581,7 @@ Example C16_unicode_host_premises_hold :
 Proof. split; [exact lowsan4_premises5|exact uni_host_example]. Qed.
 
 (* ---- appended block (task c16fin): the Unicode half, premises P1 / P2 discharged, parser model on non-ASCII host text ---- *)
-From RU Require Import Proofs.C16_UniDeny Proofs.C16_RTU Proofs.C16_RTUModel.
+From RU Require Import Proofs.C16_UniDeny Proofs.C16_RTU Proofs.C16_V4 Proofs.C16_RTUModel.
 
 (* (P1) PROVED, for every adapter: for a name that ToASCII accepts at the URL deny list (what Host::parse calls), ToUnicode
    at the EMPTY deny list (what origin.rs calls through idna::domain_to_unicode) and ToUnicode at the URL deny list are
@@ -681,6 +681,18 @@ Check C16_rt_unicode_model : forall A cfg,
               (unicode_serialization Host.host_display (origin_tu A cfg) (Tuple s (HDomain d) p)) = POk w
             /\ url_origin dbg (Host.host_parse (idna_of A cfg)) ho Host.host_display c' w = OOk (Tuple s (HDomain d) p) c'.
 Print Assumptions C16_rt_unicode_model.
+
+(* IPv4 hosts, NO hypothesis: Host::parse's IDNA step (IDNA model at the URL deny list, EVERY adapter) maps the
+   dotted-decimal text of an IPv4 address to itself - the clause v4_fixed of C09_IdnaOK_of_model, which was a premise
+   there - and the host model linked with it reads the text Display writes for an IPv4 address back as that address *)
+Theorem C16_ipv4_display_model : forall A cfg,
+  v4_fixed A cfg
+  /\ (forall a, a < 4294967296 -> Host.host_parse (idna_of A cfg) (Host.ipv4_display a) = HostT.Ok (HIpv4 a)).
+Proof. intros A cfg. split; [exact (v4_fixed_model A cfg)|exact (ipv4_display_rt_model A cfg)]. Qed.
+Check C16_ipv4_display_model : forall A cfg,
+  v4_fixed A cfg
+  /\ (forall a, a < 4294967296 -> Host.host_parse (idna_of A cfg) (Host.ipv4_display a) = HostT.Ok (HIpv4 a)).
+Print Assumptions C16_ipv4_display_model.
 
 (* THE CORRECTED ROUND-TRIP STATEMENT (C16_rt_statement is refuted: its host functions are arbitrary): with the host
    functions of the models - Host::parse = host model + IDNA model at the URL deny list, Display = host model,
